@@ -320,6 +320,21 @@ fn gen_embedded(src: &mut Src) -> (Graph, Vec<usize>) {
     let big = src.prob(1, 10);
     gen_graph(src, if big { 200 } else { 12 })
 }
+/// Cells that are used but not listed: one time in three, up to three nodes that something depends on
+/// are taken out of the listing (never the last one); they stay reachable through their users.
+fn unlist(src: &mut Src, g: &Graph, listing: &mut Vec<usize>) {
+    if !src.prob(1, 3) {
+        return;
+    }
+    for _ in 0..src.usize_in(1, 3) {
+        let used: Vec<usize> = listing.iter().cloned().filter(|i| g.iter().enumerate().any(|(u, d)| u != *i && d.contains(i))).collect();
+        if used.is_empty() || listing.len() < 2 {
+            return;
+        }
+        let k = used[src.index(used.len())];
+        listing.retain(|x| *x != k);
+    }
+}
 fn describe(g: &Graph, listing: &[usize]) -> String {
     if g.len() <= 12 {
         format!("deps {:?} listed {:?}", g, listing)
@@ -330,7 +345,8 @@ fn describe(g: &Graph, listing: &[usize]) -> String {
 
 /// raw::DepOrder::order over a raw library whose cells instantiate each other per `g`
 fn raw_case(src: &mut Src, ctx: &mut Ctx) -> Result<(), String> {
-    let (g, listing) = gen_embedded(src);
+    let (g, mut listing) = gen_embedded(src);
+    unlist(src, &g, &mut listing);
     classify(&g, &listing, ctx);
     ctx.sample("raw library cell graph", || describe(&g, &listing));
     // cells without instances are, one time in four, abstract-only (no layout view at all)
@@ -451,7 +467,8 @@ fn tetris_lib(g: &Graph, listing: &[usize], views: u64) -> tet::library::Library
     lib
 }
 fn tetris_case(src: &mut Src, ctx: &mut Ctx) -> Result<(), String> {
-    let (g, listing) = gen_embedded(src);
+    let (g, mut listing) = gen_embedded(src);
+    unlist(src, &g, &mut listing);
     classify(&g, &listing, ctx);
     ctx.sample("gridded-layout library cell graph", || describe(&g, &listing));
     let views = src.u64();
@@ -473,7 +490,8 @@ fn tetris_case(src: &mut Src, ctx: &mut Ctx) -> Result<(), String> {
     }
 }
 fn tetris_proto_case(src: &mut Src, ctx: &mut Ctx) -> Result<(), String> {
-    let (g, listing) = gen_embedded(src);
+    let (g, mut listing) = gen_embedded(src);
+    unlist(src, &g, &mut listing);
     classify(&g, &listing, ctx);
     let views = src.u64();
     let lib = tetris_lib(&g, &listing, views);
